@@ -2,6 +2,7 @@
   C08 — cloning yields an equal, fully independent vector on every backend.
 -/
 import AnyVecModel.Proofs.Exec
+import AnyVecModel.Props.Hist
 namespace AnyVec
 namespace C08
 open World
@@ -92,6 +93,18 @@ def v0 : VecSt :=
 def sampleWorld : World := { vecs := [v0], created := 12 }
 example : (cloneVec 0 sampleWorld).1.vis 1 = [.val 12, .val 13] ∧ (cloneVec 0 sampleWorld).1.vis 0 = [.val 10, .val 11] ∧
     (cloneVec 0 sampleWorld).1.ev = [.clone 11 13, .clone 10 12, .alloc 16 8] := by decide
+
+/-! ### over whole histories -/
+
+/-- **history theorem**: from every reachable world, `clone()` of a live `Cloneable` vector — with a
+panic injected at any user-code call (any element's `Clone`) — keeps the world invariant: the clone's
+elements are fresh identities in separately owned storage (distinct from every element of every
+other vector, held value or destroyed value), the source is untouched, and when a `Clone` panics the
+half-built vector is released without destroying anything twice; memory is never faulted. -/
+theorem history_clone_core (cfg : Cfg) (w : World) (hr : Hist.Reach cfg w) (v : Nat) (f : Option Nat)
+    (hv : Hist.liveCloneable w.vecs v) :
+    (runStep cfg (.clone v) f w).1.Inv ∧ (runStep cfg (.clone v) f w).2.notUb :=
+  Hist.runStep_inv cfg (.clone v) f w (Hist.reach_inv_core cfg w hr) trivial hv
 
 end C08
 end AnyVec
